@@ -140,6 +140,9 @@ func runFault(c FaultCase, rec *h.Rec) error {
 	if res.Err != "" {
 		return h.Failf("C08:harness", "%s", res.Err)
 	}
+	if err := preJudge(res, rec); err != nil {
+		return err
+	}
 	known := func(key, msg string) (bool, error) {
 		if rec.Known(key, msg) {
 			rec.Class("known=" + key)
@@ -330,6 +333,9 @@ func runCorrupt(c CorruptCase, rec *h.Rec) error {
 // encoding is a fixpoint; never a panic, a dead process, or an allocation above 64*len + 1 MiB. Listed findings are
 // booked in rec and skipped.
 func judgeDamaged(T, where string, res DecodeRes, rec *h.Rec) error {
+	if err := preJudge(res, rec); err != nil {
+		return err
+	}
 	known := func(key, msg string) error {
 		if rec.Known(key, msg) {
 			rec.Class("known=" + key)
